@@ -245,6 +245,14 @@ def _prune(stmts: List[ast.stmt]) -> List[ast.stmt]:
     return out
 
 
+def prune_constant_branches(fn: ast.AST) -> ast.AST:
+    """In place: conditional expressions and `if` / `while` statements whose test is decided by literal constants are replaced by the arm taken."""
+    _IfExp().visit(fn)
+    fn.body = _prune(fn.body) or [ast.copy_location(ast.Pass(), fn)]  # type: ignore[attr-defined]
+    ast.fix_missing_locations(fn)
+    return fn
+
+
 class _IfExp(ast.NodeTransformer):
     def visit_IfExp(self, node: ast.IfExp):
         self.generic_visit(node)
